@@ -25,6 +25,19 @@ def quiet_lenskit():
     import structlog
     structlog.configure(wrapper_class=structlog.make_filtering_bound_logger(logging.CRITICAL))
 
+import contextlib
+@contextlib.contextmanager
+def silence_fd1():
+    """Worker processes of lenskit's pools pretty-print the exceptions of failing tasks on *their* standard output (structlog's
+    ExceptionPrettyPrinter), which is the check's own.  Cases that run a pool with a failing task point file descriptor 1 at the null
+    device for the duration of the call, so that a check's standard output carries only its own lines."""
+    sys.stdout.flush()
+    saved = os.dup(1); null = os.open(os.devnull, os.O_WRONLY)
+    try:
+        os.dup2(null, 1); yield
+    finally:
+        sys.stdout.flush(); os.dup2(saved, 1); os.close(saved); os.close(null)
+
 def rat(x) -> str:
     try:
         f = Fraction(x)
